@@ -1,1 +1,45 @@
-(* C13 *)
+(* C13 — transforms: exact inverse pairs, in bounds, clean decline: the part proved so far.
+   The transform SEQUENCE (transform/Sequence.go, Model/Seq.v): for EVERY list of 1..8 stages
+   that keep the per-stage contract [good] (a successful Forward stays within MaxEncodedLen, is
+   undone by Inverse whenever the output slice can hold the original, MaxEncodedLen monotone),
+   every non-empty block and every destination size:
+   (1) if Forward succeeds, its output fits in MaxEncodedLen(len(block)) and in the destination;
+       the "result does not fit" branch of the code is unreachable;
+   (2) Inverse, given the skip flags Forward computed and a destination that can hold the block,
+       returns the block - whichever stages applied or declined (a declined stage hands its input
+       on unchanged) and however much a stage expanded its input: the working buffers of Inverse
+       are large enough for every intermediate result (the defect repaired in 8934ab2).
+   The per-transform contracts (19 transforms) are decided by search with canary-guarded buffers
+   on the real code, not proved. *)
+From Coq Require Import List NArith Arith.
+From KV Require Import Model.Seq Proofs.SeqProofs.
+Import ListNotations.
+
+Theorem C13_sequence_roundtrip : forall ts x dcap skip y, Forall good ts -> length ts <= 8 ->
+  seq_forward ts x dcap = FOk skip y ->
+  forall dcap2, length x <= dcap2 -> seq_inverse ts y dcap2 skip = IOk x.
+Proof. exact seq_roundtrip. Qed.
+Print Assumptions C13_sequence_roundtrip.
+
+Theorem C13_sequence_forward_in_bounds : forall ts x dcap, Forall good ts ->
+  match seq_forward ts x dcap with
+  | FOk _ y => length y <= max_enc ts (length x) /\ length y <= dcap
+  | FLost _ _ => False
+  | _ => True
+  end.
+Proof. exact seq_forward_in_bounds. Qed.
+Print Assumptions C13_sequence_forward_in_bounds.
+
+(* the contract is satisfiable (the scripted stages of the correspondence harness keep it), and a
+   chain with an expanding stage in the middle round-trips *)
+Theorem C13_scripted_stages_keep_the_contract : forall kd, match kd with KLie _ _ => True | _ => good (mk_stage kd) end.
+Proof. exact mk_stage_good. Qed.
+Print Assumptions C13_scripted_stages_keep_the_contract.
+
+Example C13_instance :
+  let ts := map mk_stage [KStrip 2 160; KTag 3 161; KRev; KDecline; KTag 2 160]%N in
+  match seq_forward ts [160; 160; 7; 8; 9]%N 10 with
+  | FOk skip y => skip = 23%N /\ seq_inverse ts y 5 skip = IOk [160; 160; 7; 8; 9]%N
+  | _ => False
+  end.
+Proof. vm_compute. split; reflexivity. Qed.
